@@ -60,7 +60,13 @@ def after(ctx, rng, desc):
     r.nsacr.value = (r.nsacr.value & ~0x3FFF) | rng.getrandbits(14)
     if ctx.cfg['have_virt_ext']:
         r.hcptr.value = rng.getrandbits(14) if rng.random() < 0.5 else 0
+        # Hyp trap controls of the hint / monitor-call instructions
+        r.hcr.twe = rng.randrange(2)
+        r.hcr.twi = rng.randrange(2)
+        r.hcr.tsc = 1 if rng.random() < 0.3 else 0
+    r.event_register = rng.random() < 0.5
     desc['nmfi'] = r.sctlr.nmfi
+    desc['event_register'] = r.event_register
 
 
 def plan(tier, seed):
